@@ -161,7 +161,9 @@ Provide(l, named, isVariant) == ImplProvide(l, named, isVariant) = DocProvide(l,
 (***************************************************************************)
 (* The enum around a variant: its companion variant                        *)
 (*   comp \in {"unit" (`Other`), "ignored" (`#[error(ignore)] Ign(E)`),     *)
-(*             "sourced" (`W { source: E }`)}                              *)
+(*             "sourced" (`W { source: E }`), "ignored_src" (`#[error(ignore)]*)
+(*             Ign(#[error(source)] E)`: a field attribute inside an       *)
+(*             ignored variant does not bring it back)}                    *)
 (* Doc: a value of the companion variant has the source its own layout     *)
 (* gives (none / none - the whole variant is ignored / its field); the     *)
 (* generated `match` must cover every variant, whatever the mix.           *)
